@@ -354,6 +354,35 @@ def norm_index(n, i):
     return i
 
 
+def slice_cases(I, st, n, s):
+    """A slice whose bounds may be symbolic, on a sequence of concrete length n.
+    -> list of (state, python slice): forks over the feasible clamped values of each symbolic bound (step concrete)."""
+    def cases(st, v, is_lo):
+        v = as_arith(v)
+        if v is None or isinstance(v, int):
+            return [(st, v)]
+        if isinstance(v, Fraction) and v.denominator == 1:
+            return [(st, int(v))]
+        if not (is_z3(v) and z3.is_int(v)):
+            raise Unsupported("slice bound %r" % (v,))
+        out = []
+        conds = [(v <= -n, -n)] + [(v == k, k) for k in range(-n + 1, n)] + [(v >= n, n)]
+        for c, val in conds:
+            if I.feasible(st, c):
+                s2 = st.fork()
+                s2.pc.append(c)
+                out.append((s2, val))
+        return out
+
+    if s.step is not None and not isinstance(s.step, int):
+        raise Unsupported("symbolic slice step")
+    res = []
+    for st1, lo in cases(st, s.lo, True):
+        for st2, hi in cases(st1, s.hi, False):
+            res.append((st2, slice(lo, hi, s.step)))
+    return res
+
+
 def slice_concrete(I, n, s):
     def c(v):
         if v is None:
@@ -379,8 +408,9 @@ def getitem(I, st, obj, idx):
     if isinstance(obj, (tuple, str, FrozenList)):
         seq = obj.items if isinstance(obj, FrozenList) else obj
         if isinstance(idx, SliceVal):
-            r = seq[slice_concrete(I, len(seq), idx)]
-            yield st, (r if not isinstance(obj, FrozenList) else st.alloc(ListE(r)))
+            for st1, sl in slice_cases(I, st, len(seq), idx):
+                r = seq[sl]
+                yield st1, (r if not isinstance(obj, FrozenList) else st1.alloc(ListE(r)))
             return
         yield from index_concrete_seq(I, st, list(seq), idx, obj)
         return
@@ -395,7 +425,8 @@ def getitem(I, st, obj, idx):
         e = st.get(obj)
         if e.kind in ("list", "deque"):
             if isinstance(idx, SliceVal):
-                yield st, st.alloc(ListE(e.items[slice_concrete(I, len(e.items), idx)]))
+                for st1, sl in slice_cases(I, st, len(e.items), idx):
+                    yield st1, st1.alloc(ListE(st1.get(obj).items[sl]))
                 return
             yield from index_concrete_seq(I, st, e.items, idx, obj)
             return
